@@ -8,6 +8,7 @@ import (
 	"fmt"
 	"go/token"
 	"go/types"
+	"sort"
 	"strings"
 
 	"golang.org/x/tools/go/ssa"
@@ -1113,4 +1114,81 @@ func ruleTwinBound(p *Prog, r *Result) {
 	}
 	r.note("functions_cutting_texts_in_both_bodies", n)
 	r.floor("registered functions comparing against a text length", n, 1)
+}
+
+// ---------------- GROUPCONV ----------------
+
+func init() {
+	register("GROUPCONV", "row mode and batch mode render a group value with the same function: the methods of AggregatePlan that call a package renderer (a function taking the value as `any` and returning ([]byte, error)) all call the same one(s) - a second renderer on one side lets the same value fall into differently named groups in the two modes", ruleGroupConv)
+}
+
+func ruleGroupConv(p *Prog, r *Result) {
+	at := p.Named("AggregatePlan")
+	if at == nil {
+		r.undecided("anchor: AggregatePlan not found")
+		return
+	}
+	isRenderer := func(g *ssa.Function) bool {
+		if g == nil || !p.InPkg(g) {
+			return false
+		}
+		res := g.Signature.Results()
+		if res.Len() != 2 || !isErrorType(res.At(1).Type()) {
+			return false
+		}
+		sl, ok := res.At(0).Type().Underlying().(*types.Slice)
+		if !ok {
+			return false
+		}
+		if bt, ok := sl.Elem().Underlying().(*types.Basic); !ok || bt.Kind() != types.Uint8 {
+			return false
+		}
+		ps := g.Signature.Params()
+		for i := 0; i < ps.Len(); i++ {
+			if it, ok := ps.At(i).Type().Underlying().(*types.Interface); ok && it.Empty() {
+				return true
+			}
+		}
+		return false
+	}
+	sets := map[string]map[string]bool{}
+	renderers := map[*ssa.Function]bool{}
+	for _, fn := range p.methodsOf(at) {
+		if isRenderer(fn) {
+			renderers[fn] = true
+		}
+	}
+	for _, fn := range p.methodsOf(at) {
+		if renderers[fn] {
+			continue // a renderer delegating to another one is its own business
+		}
+		allInstrs(fn, func(in ssa.Instruction) {
+			c, ok := in.(*ssa.Call)
+			if !ok {
+				return
+			}
+			if g := c.Call.StaticCallee(); isRenderer(g) {
+				if sets[p.FName(fn)] == nil {
+					sets[p.FName(fn)] = map[string]bool{}
+				}
+				sets[p.FName(fn)][p.FName(g)] = true
+			}
+		})
+	}
+	var names []string
+	for k := range sets {
+		names = append(names, k)
+	}
+	sort.Strings(names)
+	for _, k := range names {
+		same := len(sets[k]) == len(sets[names[0]])
+		for g := range sets[k] {
+			if !sets[names[0]][g] {
+				same = false
+			}
+		}
+		r.add(same, k+"|same-renderer", p.Pos(p.MethodByName("AggregatePlan", strings.TrimPrefix(strings.TrimPrefix(k, "(*AggregatePlan)."), "(AggregatePlan).")).Pos()), fmt.Sprintf("renders group values with %v; %s with %v", keysOf(sets[k]), names[0], keysOf(sets[names[0]])))
+	}
+	r.note("group_key_builders", names)
+	r.floor("AggregatePlan methods rendering group values", len(names), 1)
 }
